@@ -301,6 +301,8 @@ def check(ctx, R):
     R.run("C06.f", rule_f, ctx)
     R.run("C06.g", rule_g, ctx)
     R.run("C06.h", rule_h, ctx)
+    from . import shared as _shh
+    R.run("C06.n", lambda R, c: _shh.trims(R, c, "C06.n"), ctx)
     from . import preds
     R.run("C06.p", lambda R, c: preds.rule(R, c, "C06.p", ["block_is_deleted", "slice_is_deleted"]), ctx)
     def _answers(R, c):
